@@ -206,3 +206,33 @@ Proof.
   unfold gen_euler. destruct (sorted_states o), (sorted_names o ru); try discriminate.
   intros [= <-] [= <-]. simpl. auto.
 Qed.
+
+(* ---------- C13: sub-models ---------- *)
+Section SubModel.
+  Context {T : Type} (N : NumOps T).
+  Variables (ofull osub : ode) (ssf sss : list string) (inpf inps : inputs T) (wd : bool).
+
+  (* the sub-model's assignments are assignments of the full model, under the same names *)
+  Hypothesis sub_assigns : forall x a, find_assign osub x = Some a -> find_assign ofull x = Some a.
+  (* every name the sub-model does not define (its states, parameters, missing variables, t, dt)
+     is fed the value the full model gives that name *)
+  Hypothesis fed : forall x v, find_assign osub x = None -> base osub sss inps wd x = Some v ->
+                               Sem N ofull ssf inpf wd x v.
+
+  (* then every quantity of the sub-model has the value it has in the full model *)
+  Theorem sub_sem_transfer x v : Sem N osub sss inps wd x v -> Sem N ofull ssf inpf wd x v.
+  Proof.
+    induction 1 as [x v Hf Hb | x a rho Hf Hdeps IH].
+    - apply fed; assumption.
+    - apply SemDef; [apply sub_assigns; exact Hf|exact IH].
+  Qed.
+End SubModel.
+
+(* missing variables are exactly the names used but not defined *)
+Theorem missing_names_exact o x :
+  In x (missing_names o) <->
+  (exists a, In a (assigns o) /\ In x (vars (a_expr a))) /\ known_symbol o x = false.
+Proof.
+  unfold missing_names. rewrite sort_names_In, dedup_In, filter_In, in_flat_map.
+  rewrite negb_true_iff. tauto.
+Qed.
